@@ -92,9 +92,145 @@ LINES = [
 ]
 
 
+# ---- socket sessions ------------------------------------------------------------------------------
+def u8(s):
+    return "".join(chr(c) for c in s).encode("utf-8")
+
+
+def enc_arg(s):
+    out = [DQ]
+    for c in s:
+        out += [BS, c] if c in (DQ, BS) else [c]
+    return tuple(out + [DQ])
+
+
+def client_line(cmd, args):
+    """what kvarnctl sends for `kvarnctl <cmd> <args...>`"""
+    if not args:
+        return u8(cmd)
+    out = list(enc_arg(cmd))
+    for a in args:
+        out += [SP] + list(enc_arg(a))
+    return u8(out)
+
+
+def S(t):
+    return tuple(t.encode()) if isinstance(t, str) else tuple(t)
+
+
+INVALID_UTF8 = [b"\xff", b"ping \xff", b"\xc0\x80", b"\xc1\xbf", b"\xed\xa0\x80", b"\xed\xbf\xbf", b"\xf4\x90\x80\x80", b"\xf5\x80\x80\x80",
+                b"ping \xe2\x82", b"\xe0\x9f\xbf", b"\xf0\x8f\xbf\xbf", b"\x80", b"ping \xc3", b"t-close\xff", b"\xfe\xff", b"shutdown \xf8\x88\x80\x80\x80"]
+VALID_EDGE_UTF8 = [b"\xc2\x80", b"\xdf\xbf", b"\xe0\xa0\x80", b"\xed\x9f\xbf", b"\xee\x80\x80", b"\xef\xbf\xbf", b"\xf0\x90\x80\x80", b"\xf4\x8f\xbf\xbf",
+                   b"\x00", b"\x7f"]
+RAW_LINES = [b"ping", b"ping a b", b" ping  a   b ", b"'ping' x", b'"ping" "x y"', b"pi\\ng", b"p\"in\"g 'a b' c\\ d", b"PING", b"ping\x00", b"", b" ", b'""', b"'' a",
+             b"nope", b"nope a b", b'"no pe"', b"t-count", b"t-args", b"t-args a", b't-args "" "" ""', b"t-fail", b"t-fail x y", b"t-ok-empty", b"t-ok-empty x",
+             b"t-fail-empty", b"t-bin", b"reload", b"wait", b"wait x", b"clear", b"clear all", b"clear all example.org", b"clear all a b", b"clear files",
+             b"clear files h", b"clear files h x", b"clear responses", b"clear responses h", b"clear file", b"clear file h", b"clear file h /p", b"clear file h /p x",
+             b"clear response", b"clear response h", b"clear response h /p", b"clear response h /a/b.html", b"clear nonsense", b"clear ALL", b"shutdown now",
+             b"shutdown no-wait x", b'shutdown "a \\"b\\" \\\\c"', b"shutdown 'it''s'", b"ping \\", b"ping a\\", b'ping "unterminated', b"ok", b"error", b"ping ok error"]
+CLOSERS = [b"t-close", b"t-fail-close", b"shutdown", b"shutdown no-wait", b't-close "x y"', b"'shutdown' 'no-wait'"]
+
+
+def rand_request(rng):
+    r = rng.random()
+    if r < 0.30:
+        cmd = rng.choice(("ping", "ping", "t-args", "t-args", "t-fail", ""))
+        return client_line(S(cmd), rand_vec(rng))
+    if r < 0.40:
+        # host / path arguments with spaces, quotes, backslashes, unicode
+        m = rng.choice(("all", "files", "responses"))
+        return client_line(S("clear"), [S(m), rand_str(rng)] + ([rand_str(rng)] if rng.random() < 0.2 else []))
+    if r < 0.45:
+        path = "/" + "".join(rng.choice("abcxyz019/.-_") for _ in range(rng.randrange(0, 8)))
+        return client_line(S("clear"), [S(rng.choice(("file", "response"))), rand_str(rng), S(path)])
+    if r < 0.50:
+        arg = tuple(rng.choice((SP, DQ, SQ, BS, A, 66, 48, 45)) for _ in range(rng.randrange(0, 5)))
+        return client_line(S("shutdown"), [arg])
+    if r < 0.72:
+        return rng.choice(RAW_LINES)
+    if r < 0.80:
+        return rng.choice(INVALID_UTF8)
+    if r < 0.84:
+        return rng.choice((b"ping ", b"t-args ", b"")) + rng.choice(VALID_EDGE_UTF8)
+    if r < 0.90:
+        # unknown command
+        return client_line(rand_str(rng) or S("x"), rand_vec(rng, 2))
+    if r < 0.96:
+        # a line over the alphabet, not produced by the encoder
+        return bytes(rng.choice((A, SP, DQ, SQ, BS, 112)) for _ in range(rng.randrange(0, 10)))
+    return bytes(rng.randrange(256) for _ in range(rng.randrange(1, 12)))
+
+
+def session(reqs, kind):
+    return Case("ctl.session", xlist([xb(r) for r in reqs]), None, {"kind": kind})
+
+
+def sessions(rng, n):
+    out = []
+    # directed sessions first
+    out.append(session([client_line(S("ping"), [()]), client_line(S("ping"), [(), ()]), client_line(S("t-args"), [(A,), (), (A,)])], "session-corpus"))
+    out.append(session(RAW_LINES[:30], "session-lines"))
+    out.append(session(RAW_LINES[30:], "session-lines"))
+    out.append(session(INVALID_UTF8 + [b"ping still here"], "session-invalid-utf8"))
+    out.append(session([b"ping "] + [b"ping " + v for v in VALID_EDGE_UTF8], "session-edge-utf8"))
+    out.append(session([b"t-count"] * 4 + [b"nope", b"\xff", b"t-fail", b"t-count"], "session-history"))
+    for c in CLOSERS:
+        out.append(session([b"ping before", b"t-count", c, b"ping after", b"t-count"], "session-close"))
+    out.append(session([b"shutdown bad", b"shutdown no-wait bad", b"ping x", b"shutdown", b"ping y"], "session-close"))
+    for _ in range(n):
+        reqs = [rand_request(rng) for _ in range(rng.randrange(1, 9))]
+        if rng.random() < 0.5:
+            reqs.insert(rng.randrange(0, len(reqs) + 1), rng.choice(CLOSERS))
+        reqs.append(b"ping end")
+        out.append(session(reqs, "session-random"))
+    return out
+
+
+def utf8_cases(rng, n):
+    out = []
+    for b in INVALID_UTF8 + VALID_EDGE_UTF8 + RAW_LINES:
+        out.append(Case("ctl.utf8", xb(b), None, {"kind": "utf8"}))
+    lead = [0x00, 0x7f, 0x80, 0xbf, 0xc0, 0xc1, 0xc2, 0xdf, 0xe0, 0xe1, 0xec, 0xed, 0xee, 0xef, 0xf0, 0xf1, 0xf3, 0xf4, 0xf5, 0xff]
+    second = [0x00, 0x7f, 0x80, 0x8f, 0x90, 0x9f, 0xa0, 0xbf, 0xc0, 0xff]
+    for a in lead:
+        out.append(Case("ctl.utf8", xb(bytes([a])), None, {"kind": "utf8-boundary"}))
+        for b in second:
+            out.append(Case("ctl.utf8", xb(bytes([a, b])), None, {"kind": "utf8-boundary"}))
+            for c in (0x7f, 0x80, 0xbf, 0xc0):
+                out.append(Case("ctl.utf8", xb(bytes([a, b, c])), None, {"kind": "utf8-boundary"}))
+                for d in (0x7f, 0x80, 0xbf, 0xc0):
+                    out.append(Case("ctl.utf8", xb(bytes([a, b, c, d])), None, {"kind": "utf8-boundary"}))
+                    out.append(Case("ctl.utf8", xb(bytes([a, b, c, d, 0x41])), None, {"kind": "utf8-boundary"}))
+    for _ in range(n):
+        r = rng.random()
+        if r < 0.5:
+            b = u8([c for c in rand_str(rng, 8) if not 0xd800 <= c < 0xe000])
+            b = bytearray(b)
+            for _ in range(rng.randrange(0, 3)):
+                if b:
+                    op = rng.randrange(3)
+                    i = rng.randrange(len(b))
+                    if op == 0:
+                        del b[i]
+                    elif op == 1:
+                        b[i] = rng.choice(lead + second)
+                    else:
+                        b.insert(i, rng.choice(lead + second))
+            out.append(Case("ctl.utf8", xb(bytes(b)), None, {"kind": "utf8-random"}))
+        elif r < 0.8:
+            out.append(Case("ctl.utf8", xb(bytes(rng.choice(lead + second + [0x41, 0x20]) for _ in range(rng.randrange(0, 7)))), None, {"kind": "utf8-random"}))
+        else:
+            out.append(Case("ctl.utf8enc", xs(rand_str(rng, 10)), None, {"kind": "utf8-encode"}))
+    for c in (0, 0x7f, 0x80, 0x7ff, 0x800, 0xd7ff, 0xd800, 0xdfff, 0xe000, 0xffff, 0x10000, 0x10ffff, 0x110000):
+        out.append(Case("ctl.utf8enc", xs((c,)), None, {"kind": "utf8-encode"}))
+    return out
+
+
 def generate(rng, tier):
     cases = []
     quick = tier == "quick"
+    cases += sessions(rng, 12 if quick else 400)
+    cases += utf8_cases(rng, 1500 if quick else 60000)
     # corpus: the confirmed defect and its neighbours first
     for l in ([()], [(), ()], [(A,), ()], [(), (A,)], [(A,), (), (A,)], [], [(SP,)], [(DQ,)], [(BS,)], [(SQ,)], [(BS, DQ)], [(DQ, BS)]):
         cases.append(roundtrip(list(l), "corpus"))
